@@ -4,6 +4,8 @@ use crate::report::{Acc, Ctx, Report};
 use serde_json::Value as J;
 
 #[cfg(feature = "full")]
+pub mod c06;
+#[cfg(feature = "full")]
 pub mod c07;
 #[cfg(feature = "full")]
 pub mod c15;
@@ -12,6 +14,8 @@ pub mod c20;
 
 pub fn run(ctx: &Ctx) -> Option<Report> {
     match ctx.prop.as_str() {
+        #[cfg(feature = "full")]
+        "C06" => Some(c06::run(ctx)),
         #[cfg(feature = "full")]
         "C07" => Some(c07::run(ctx)),
         #[cfg(feature = "full")]
@@ -28,6 +32,8 @@ pub fn replay(ctx: &Ctx, j: &J, path: &str) -> i32 {
     let case = &j["case"];
     let mut acc = Acc::new();
     match ctx.prop.as_str() {
+        #[cfg(feature = "full")]
+        "C06" => c06::replay(sub, case, &mut acc),
         #[cfg(feature = "full")]
         "C07" => c07::replay(sub, case, &mut acc),
         #[cfg(feature = "full")]
